@@ -445,6 +445,11 @@ func counterEncipher(key, iv, src, dst []byte) error {
 
 func encrypt(key, data []byte) (dst []byte, err error) {
 	dst = make([]byte, len(data))
+	if len(data) < aes.BlockSize {
+		// the all-zero counter block cannot be borrowed from an output buffer shorter than a block
+		err = counterEncipher(key, make([]byte, aes.BlockSize), data, dst)
+		return
+	}
 	err = counterEncipher(key, dst[:aes.BlockSize], data, dst)
 	return
 }
